@@ -27,7 +27,7 @@ LEVEL_TEXT = ('for window_score and template_input, every configuration (initial
               'with an exception injected at exactly the k-th call made from the module under test (Python and C calls, environment look-ups included); os.environ is compared as a whole before/after every run')
 LEVEL_NOTE = ('one injected fault per run (bound = 1 deviation) at call granularity; heavy collaborators (readspec, solvers, plotting, scoring) are replaced by light stubs so the fault-free run completes, '
               'the functions under test run unmodified; writes to os.environ themselves are assumed not to fail; trusted: sys.setprofile event delivery')
-RULE = ('two-call histories on one parameter file (first call succeeds or fails naturally, environment changed in between, second call swept with every fault point; with and without the dump file the first call wrote being what the second call loads); natural failures include a parameter file whose run2d/run1d value cannot be put in the environment (NUL byte: the assignment itself raises between the first and the second variable); configurations = full product of initial environment states x variants; per configuration k = 0 (no fault), natural failures, and k = 1..N for every call event whose caller frame '
+RULE = ('two-call histories on one parameter file (first call succeeds or fails naturally, environment changed in between, second call swept with every fault point; with and without the dump file the first call wrote being what the second call loads); natural failures include a parameter file whose run2d/run1d value cannot be put in the environment (NUL byte: the assignment itself raises between the first and the second variable); initial states per variable: unset, set to another value, set but empty, set to the value the parameter file asks for; the optional binsz keyword absent, well-formed, malformed; configurations = full product of initial environment states x variants; per configuration k = 0 (no fault), natural failures, and k = 1..N for every call event whose caller frame '
         'belongs to the module under test. Non-trivial: a run that ends by an exception while the environment at the moment of the fault differs from the initial one (something had to be restored). '
         'Distinct: (entry point, configuration, k, exception class).')
 ASSUMPTIONS = ['assignments/deletions on os.environ are not injected fault points (if restoring cannot be done, nothing can restore); the data-driven failure of the initial assignment (NUL byte in the value) is enumerated as a natural failure instead; look-ups in os.environ are not fault points either (their answer is determined by the enumerated initial state); pure str/list/dict methods and len/isinstance/... are not fault points; calls between functions of the module under test are not fault points themselves (their outgoing calls are)',
@@ -198,6 +198,9 @@ def ti_write_par(path, cfg):
              'nkeep %d' % NKEEP, 'minuse 3']
     if cfg['defect'] == 'missingkey':
         lines = [ln for ln in lines if not ln.startswith('snmax')]
+    # the optional binsz keyword (read by _template_input when present): well-formed and malformed
+    if cfg['defect'] in ('binsz_ok', 'binsz_bad'):
+        lines.append('binsz %s' % ('1.0e-4' if cfg['defect'] == 'binsz_ok' else 'auto'))
     if method in ('hmf', 'bogus'):
         lines.append('nonnegative 0')
         if cfg['defect'] != 'missinghmf':
@@ -234,10 +237,11 @@ def ti_setup(d, cfg, keep_files=False):
             pickle.dump({'newflux': flux, 'newivar': ivar, 'newloglam': loglam}, f)
     for v in ('RUN2D', 'RUN1D'):
         os.environ.pop(v, None)
+    # initial states: unset / set to another value / set but empty / set to the very value the parameter file asks for
     if cfg['run2d']:
-        os.environ['RUN2D'] = '' if cfg['run2d'] == 'empty' else 'orig2d'
+        os.environ['RUN2D'] = {'empty': '', 'same': 'new2d'}.get(cfg['run2d'], 'orig2d')
     if cfg['run1d']:
-        os.environ['RUN1D'] = '' if cfg['run1d'] == 'empty' else 'orig1d'
+        os.environ['RUN1D'] = {'empty': '', 'same': 'new1d'}.get(cfg['run1d'], 'orig1d')
     nat = cfg.get('natural')
 
     def readspec(*a, **k):
@@ -316,7 +320,7 @@ def ti_configs(tier):
         if not T and run2d != run1d:
             continue        # quick: natural failures from the both-set and both-unset states
         # natural failures (0 injected faults, but also swept with injected ones)
-        for defect in ('missingfile', 'missingkey', 'badvalue', 'missinghmf', 'noeigenobj', 'nul2d', 'nul1d'):
+        for defect in ('missingfile', 'missingkey', 'badvalue', 'missinghmf', 'noeigenobj', 'nul2d', 'nul1d', 'binsz_ok', 'binsz_bad'):
             out.append({'ep': 'template_input', 'run2d': run2d, 'run1d': run1d, 'object': 'gal',
                         'method': 'hmf' if defect == 'missinghmf' else 'pca', 'dump': 'absent', 'flux': False, 'defect': defect})
         out.append({'ep': 'template_input', 'run2d': run2d, 'run1d': run1d, 'object': 'gal', 'method': 'bogus', 'dump': 'absent',
@@ -325,7 +329,10 @@ def ti_configs(tier):
             out.append({'ep': 'template_input', 'run2d': run2d, 'run1d': run1d, 'object': 'gal', 'method': 'hmf' if nat == 'solver' else 'pca',
                         'dump': 'absent', 'flux': False, 'defect': 'none', 'natural': nat})
     # variables set but EMPTY on entry (a third initial state besides set / unset)
-    for run2d, run1d in (('empty', 'empty'), ('empty', False), (True, 'empty'), (False, 'empty'), ('empty', True)) if T else (('empty', 'empty'), (True, 'empty')):
+    # ... and variables already holding the value the parameter file asks for (a fourth initial state)
+    for run2d, run1d in ((('empty', 'empty'), ('empty', False), (True, 'empty'), (False, 'empty'), ('empty', True), ('same', 'same'), ('same', True),
+                          (True, 'same'), ('same', False), (False, 'same'), ('same', 'empty'))
+                         if T else (('empty', 'empty'), (True, 'empty'), ('same', 'same'), ('same', False), (True, 'same'))):
         for method, defect in (('pca', 'none'), ('hmf', 'missinghmf')):
             out.append({'ep': 'template_input', 'run2d': run2d, 'run1d': run1d, 'object': 'gal', 'method': method, 'dump': 'absent',
                         'flux': False, 'defect': defect})
